@@ -337,3 +337,27 @@ func H_API_RectLine(p []int) {
 	vAssert(r.ContainsLine(line) == sLineInPoly(rv, nil, lp), "C03.api-rect-contains-line")
 	vCover("api.rectline")
 }
+
+// H_API_PolyLineT: concrete hole-free polygon A against a concrete open line (possibly with many points, so that
+// the bounding-rectangle shortcut for big inner shapes is taken) under an arbitrary real translation.
+// params: kind, ring A, line B
+func H_API_PolyLineT(p []int) {
+	kind := p[0]
+	a, off := vConcreteRing(p, 1)
+	b0, _ := vConcreteLine(p, off)
+	tx, ty := vF("tx", 0), vF("ty", 0)
+	b := make([]Point, len(b0))
+	for i := range b0 {
+		b[i] = Point{b0[i].X + tx, b0[i].Y + ty}
+	}
+	minPts := 0
+	if kind != 0 {
+		minPts = 1
+	}
+	opts := &IndexOptions{Kind: vKind(kind), MinPoints: minPts}
+	A := NewPoly(vClose(a), nil, opts)
+	B := NewLine(b, opts)
+	vAssert(A.ContainsLine(B) == sLineInPoly(a, nil, b), "C03.api-poly-contains-line")
+	vAssert(A.IntersectsLine(B) == sLineMeetsPoly(a, nil, b), "C02.api-poly-intersects-line")
+	vCover("api.polylinet")
+}
